@@ -137,22 +137,24 @@ pub fn model(c: &OpCase, inp: &Inputs) -> Vec<Poly> {
         "cnv_apply_dft" | "cnv_pairwise_apply_dft" | "cnv_self_apply_dft" => {
             let mask: i64 = !0i64 << (c.q.max(0) as u32);
             let off = c.p as usize;
+            // limbs that take part: the preparation truncates to the prepared size (and masks the last limb that is kept)
+            let (_, _, ea, eb) = ops::cnv_sizes(c);
             let (left, right): (Vec<Poly>, Vec<Poly>) = match c.op.as_str() {
-                "cnv_apply_dft" => (masked_limbs(&inp.a, c.ac, c.a_s, mask), masked_limbs(&inp.b, c.bc, c.bs, mask)),
-                "cnv_self_apply_dft" => (masked_limbs(&inp.a, c.ac, c.a_s, mask), masked_limbs(&inp.a, c.bc, c.a_s, mask)),
+                "cnv_apply_dft" => (masked_limbs(&inp.a, c.ac, ea, mask), masked_limbs(&inp.b, c.bc, eb, mask)),
+                "cnv_self_apply_dft" => (masked_limbs(&inp.a, c.ac, ea, mask), masked_limbs(&inp.a, c.bc, ea, mask)),
                 _ => {
                     let (i, j) = (c.ac, c.bc);
                     if i == j {
-                        (masked_limbs(&inp.a, i, c.a_s, mask), masked_limbs(&inp.b, i, c.bs, mask))
+                        (masked_limbs(&inp.a, i, ea, mask), masked_limbs(&inp.b, i, eb, mask))
                     } else {
-                        let l: Vec<Poly> = masked_limbs(&inp.a, i, c.a_s, mask)
+                        let l: Vec<Poly> = masked_limbs(&inp.a, i, ea, mask)
                             .iter()
-                            .zip(masked_limbs(&inp.a, j, c.a_s, mask).iter())
+                            .zip(masked_limbs(&inp.a, j, ea, mask).iter())
                             .map(|(x, y)| add(x, y))
                             .collect();
-                        let r: Vec<Poly> = masked_limbs(&inp.b, i, c.bs, mask)
+                        let r: Vec<Poly> = masked_limbs(&inp.b, i, eb, mask)
                             .iter()
-                            .zip(masked_limbs(&inp.b, j, c.bs, mask).iter())
+                            .zip(masked_limbs(&inp.b, j, eb, mask).iter())
                             .map(|(x, y)| add(x, y))
                             .collect();
                         (l, r)
@@ -452,7 +454,24 @@ pub fn cases_for(op: &str, n: usize, b: usize, tier: Tier) -> Vec<OpCase> {
                                         let mut c = base.clone();
                                         (c.rs, c.a_s, c.bs, c.p, c.q, c.cols, c.rc, c.ac, c.bc, c.val) =
                                             (rs, a_s, bsz, off as i64, mask, cols, rc, ac, bc, val);
-                                        out.push(c);
+                                        out.push(c.clone());
+                                        // prepared operands whose shape differs from the vector they were prepared from and from
+                                        // each other: more columns on one side, prepared size shorter / longer than the input
+                                        if op != "cnv_by_const_apply" && val == vals[0] {
+                                            let shapes: &[(u8, u8, i8, i8)] = if op == "cnv_self_apply_dft" {
+                                                &[(1, 0, 0, 0), (0, 0, 1, 0), (0, 0, -1, 0), (2, 0, 2, 0)]
+                                            } else {
+                                                &[(1, 0, 0, 0), (0, 2, 0, 0), (0, 0, 1, 0), (0, 0, 0, 2), (0, 0, -1, 0), (0, 0, 0, -1), (2, 1, 1, -1)]
+                                            };
+                                            for &(xl, xr, el, er) in shapes {
+                                                if (el < 0 && a_s == 1) || (er < 0 && bsz == 1) {
+                                                    continue;
+                                                }
+                                                let mut d = c.clone();
+                                                (d.xl, d.xr, d.el, d.er) = (xl, xr, el, er);
+                                                out.push(d);
+                                            }
+                                        }
                                     }
                                 }
                             }
